@@ -185,7 +185,7 @@ class UnitValueValidator:
         classes = list(original_tag.value_classes.keys())
         if not classes:
             return []
-        start_index = original_tag.extension.find(stripped_value) + len(original_tag.org_base_tag) + 1
+        start_index = original_tag.extension.find(stripped_value) + len(original_tag.org_base_tag) + 1 + index_offset
 
         report_as = report_as if report_as else original_tag
         class_valid = {}
@@ -199,6 +199,11 @@ class UnitValueValidator:
                 return []
         index_adj = len(report_as.org_base_tag) - len(original_tag.org_base_tag)
         validation_issues = self.report_value_errors(char_errors, class_valid, report_as, index_adj)
+        if error_code and validation_issues and not any(error_code == issue['code'] for issue in validation_issues):
+            # The overall (e.g. Def) code, whatever kind of tag took the value
+            new_issue = validation_issues[0].copy()
+            new_issue['code'] = error_code
+            validation_issues += [new_issue]
         return validation_issues
 
     @staticmethod
